@@ -62,6 +62,13 @@ CHECKS.update({
     "C19": dict(cat="model_checking", text="All instances of the four algebraic laws (idempotence, set-fresh/rm undo, rm/set redo, commutation) over every existing and fresh path of every canonical document in the bound, each executed CLI-style (re-parse between steps) and on one live object; the implementation is compared with itself.", ref="DESIGN.md 2/C19", note=E2_NOTE, technique="exhaustive enumeration of operation pairs/triples (paths of the state graph that must close) on the real implementation"),
 })
 
+CHECKS.update({
+    "C10": dict(cat="model_checking", text="(a) Every nesting of scoping constructs up to the depth bound (let/rec/plain sets/with/inherit/applied and unapplied functions/pass-through wrappers, the name bound at several levels, chains and cycles) is resolved through the real document and compared with a reference resolver for Nix lexical scoping; (b) BFS over create/resolve/drop histories of several documents in one process with the identity-keyed context registry invariant checked after every step.", ref="DESIGN.md 2/C10", note="Trusted base: the reference resolver nixmc/scopes.py (60 lines of lexical scoping), reaching applied-function bodies through attach_resolution_context as the repository's tests do. Explicit refusals on bound names are violations only inside the documented core constructs.", technique="bounded-exhaustive enumeration of scope nestings vs a reference resolver + explicit-state BFS over document-lifecycle histories with a registry invariant"),
+    "C11": dict(cat="model_checking", text="The C10 nestings with unique literals everywhere; `set x 77` through the CLI path and `ref.value = 77` through the API; the single token that may change is the literal the reference resolver designates (or the reference itself when the name is unbound).", ref="DESIGN.md 2/C11", note="Trusted base: reference resolver nixmc/scopes.py; token-level diff over the tree-sitter CST. Valueless binders, cycles and API writes to unbound names are not judged.", technique="bounded-exhaustive enumeration of scope nestings x edit entry points, single-token-diff oracle named by a reference resolver"),
+    "C12": dict(cat="exploration", text="All names up to a length bound over a 16-character alphabet (+ keywords) x every legal spelling x (set on empty set, second set / rm with every equivalent spelling, 2-segment paths, spellings already in the file); all path texts up to a length bound against a reference NPath tokenizer.", ref="DESIGN.md 2/C12", note="Trusted base: independent Nix string decoder and reference tokenizer of the documented NPath grammar (nixmc/editmodel.py); shapes the documentation does not settle (text glued behind a closing quote) are not judged.", technique="exhaustive enumeration of all strings up to a length bound, round-trip through an independent decoder"),
+    "C13": dict(cat="exploration", text="All nested Python values in the bound (strings over the escaping alphabet, ints, bools, None, floats, lists and dicts to nesting 3) x 8 construction contexts; the rendered text is read back by an independent CST reader and compared type-exactly; double rendering and re-parse stability.", ref="DESIGN.md 2/C13", note="Trusted base: independent CST-to-Python reader (own unescaper). NUL is excluded from the alphabet (Nix strings cannot represent it).", technique="exhaustive enumeration of a bounded value space x contexts, independent read-back"),
+})
+
 NOT_YET = {
 }
 
